@@ -41,6 +41,10 @@ Definition cache_preimage (cert : bytes) (pre : bool) (ikh : bytes) : builder :=
 Definition ckey (e : entry) : bytes :=
   match cache_preimage (e_cert e) (e_pre e) (e_ikh e) with Some b => sha b | None => [] end.
 
+(* the dedup key as cmd/recompute-cache derives it from a parsed log entry (its own copy of
+   computeCacheHash over Certificate / IsPrecert / IssuerKeyHash of the sunlight.LogEntry) *)
+Definition leaf_ckey (l : leaf) : bytes := ckey (mkEntry (l_cert l) (l_pre l) (l_ikh l) [] [] []).
+
 (* a sequenced leaf together with the names line it contributes *)
 Record sleaf := mkSleaf { sl_leaf : leaf; sl_names : bytes }.
 
@@ -254,7 +258,8 @@ Inductive obs :=
 | ObsRound (i : nat) (res : option errc) (size : N) (root : bytes) (ts : Z)
 | ObsSubmit (i : nat) (wid : N) (src : string)
 | ObsAck (wid : N) (res : option (N * Z)) (err : option errc)
-| ObsNote (s : string).
+| ObsNote (s : string)
+| ObsCache (i : nat) (rows : list (bytes * (N * Z))).   (* contents of the dedup cache file *)
 
 (* ---------- openCheckpoint ---------- *)
 Definition open_checkpoint (c : cfg) (now : Z) (o : obj) : option cp + string :=
@@ -727,6 +732,77 @@ Definition step_round (w : world) (i : nat) (x : inst) (ph : phase) (f : fault) 
     let '(w2, o2) := end_round w1 i x None in (w2, o :: o2)
   end.
 
+(* ---------- cmd/recompute-cache ---------- *)
+(* The tool opens the published checkpoint with the log's public key, iterates
+   Client.Entries(tree, 0) (batches of 50 data tiles, each batch fetched and authenticated before
+   any of its entries is yielded; the trailing partial tile only when the tree has no full tile) and
+   executes one autocommitted INSERT OR IGNORE per entry. Reader specification as in LoadLog: a data
+   tile is accepted exactly when it is the rendering of the committed leaf sequence. *)
+Definition cache_insert_ignore (c : list (bytes * (N * Z))) (k : bytes) (v : N * Z) : list (bytes * (N * Z)) :=
+  match cache_get c k with Some _ => c | None => c ++ [(k, v)] end.
+
+Fixpoint recompute_entries (c : list (bytes * (N * Z))) (ls : list sleaf) (pos : N)
+  : list (bytes * (N * Z)) * bool :=
+  match ls with
+  | [] => (c, true)
+  | sl :: r =>
+    if (l_idx (sl_leaf sl) =? Z.of_N pos)%Z then
+      recompute_entries (cache_insert_ignore c (leaf_ckey (sl_leaf sl)) (pos, l_ts (sl_leaf sl))) r (pos + 1)
+    else (c, false)
+  end.
+
+Definition rc_top (n : N) : N := let t := n / 256 * 256 in if t =? 0 then n else t.
+
+Fixpoint rc_batch_tiles (k : nat) (tile_start top : N) : list (N * N) :=
+  match k with
+  | O => []
+  | S k' => if tile_start <? top then
+              (tile_start / 256, N.min 256 (top - tile_start)) :: rc_batch_tiles k' (tile_start + 256) top
+            else []
+  end.
+
+Definition rc_tile_ok (s : store) (ls : list sleaf) (t : N * N) : bool :=
+  match lookup s (data_tile_path (fst t) (snd t)) with
+  | Some (OB b) => bytes_eqb b (data_tile_bytes (slice ls (fst t * 256) (snd t)))
+  | _ => false
+  end.
+
+(* [lim] = Some m: the process is killed after m entries were inserted *)
+Fixpoint rc_loop (fuel : nat) (s : store) (ls : list sleaf) (top start : N) (lim : option N)
+                 (c : list (bytes * (N * Z))) : list (bytes * (N * Z)) * string :=
+  match fuel with
+  | O => (c, "fuel"%string)
+  | S f =>
+    if top <=? start then (c, "ok"%string) else
+    if forallb (rc_tile_ok s ls) (rc_batch_tiles 50 start top) then
+      let stop := N.min top (start + 12800) in
+      let ents := slice ls start (stop - start) in
+      let ents' := match lim with Some m => firstn (N.to_nat (m - start)) ents | None => ents end in
+      let '(c1, ok) := recompute_entries c ents' start in
+      if negb ok then (c1, "index"%string)
+      else if (match lim with Some m => m <? stop | None => false end) then (c1, "killed"%string)
+      else rc_loop f s ls top stop lim c1
+    else (c, "tile"%string)
+  end.
+
+Definition set_cache (x : inst) (c : list (bytes * (N * Z))) : inst :=
+  mkInst (i_cfg x) (i_pc x) (i_tree x) (i_lockcp x) (i_leaves x) (i_pool x) (i_inseq x)
+         (i_closed x) (i_issuers x) c (i_rctx x) (i_pub x).
+
+Definition step_recompute (w : world) (i : nat) (x : inst) (key : N) (lim : option N) : world * list obs :=
+  match published w with
+  | None => (w, [ObsNote "recompute-nocheckpoint"; ObsCache i (i_cache x)])
+  | Some p =>
+    if negb (cp_key p =? key) then (w, [ObsNote "recompute-signature"; ObsCache i (i_cache x)]) else
+    match hist_leaves (w_lockhist w) p with
+    | None => (w, [ObsNote "recompute-tile"; ObsCache i (i_cache x)])
+    | Some ls =>
+      let top := rc_top (cp_size p) in
+      let '(c1, why) := rc_loop (N.to_nat (top / 12800) + 2) (w_store w) ls top 0 lim (i_cache x) in
+      (set_i w i (set_cache x c1), [ObsNote ("recompute-" ++ why); ObsCache i c1])
+    end
+  end.
+
 (* ---------- events ---------- *)
 Inductive stop_why := SCancel | SSunset.
 
@@ -740,7 +816,8 @@ Inductive ev :=
 | EvCrash (i : nat)
 | EvStop (i : nat) (why : stop_why)
 | EvCacheDrop (i : nat) (keep : nat)          (* lose all but the first [keep] cache rows (rollback / loss) *)
-| EvTamper (k : bytes) (o : option obj).     (* anything may be done to object storage *)
+| EvTamper (k : bytes) (o : option obj)      (* anything may be done to object storage *)
+| EvRecompute (i : nat) (key : N) (lim : option N).  (* cmd/recompute-cache on the cache file of instance i *)
 
 Definition step (w : world) (e : ev) : world * list obs :=
   match e with
@@ -806,6 +883,11 @@ Definition step (w : world) (e : ev) : world * list obs :=
      | Some ob => set_store w (put (w_store w) k ob)
      | None => set_store w (remove (w_store w) k)
      end, [])
+  | EvRecompute i key lim =>
+    match get_inst (w_insts w) i with
+    | Some x => step_recompute w i x key lim
+    | None => (w, [ObsNote "no-such-instance"])
+    end
   end.
 
 Definition run (evs : list ev) (w : world) : world := fold_left (fun w e => fst (step w e)) evs w.
